@@ -5,7 +5,7 @@
    Statements only; proofs in Proofs/Rollback_run.v. *)
 From stdpp Require Import gmap.
 Require Import Grist.Model.Rollback Grist.Proofs.Rollback_proofs Grist.Proofs.Rollback_run Grist.Proofs.Rollback_inside
-  Grist.Proofs.Rollback_witness.
+  Grist.Proofs.Rollback_witness Grist.Proofs.Rollback_bridge Grist.Lib.RbPrelude GristGen.Rollback_gen.
 Open Scope Z_scope.
 
 (* The evaluation ran to its end (normally, or the formula raised after its last side effect): for every document,
@@ -59,4 +59,42 @@ Proof.
   destruct (state_after w_ord (init_state w_doc [RemoveTable T]) w_side_effect) as [st|] eqn:E; [|contradiction].
   destruct H as [H1 H2]. split; [|split; assumption].
   revert E. vm_compute. intros [= <-]. reflexivity.
+Qed.
+
+(* ---------------------------------------------------------------------------------------------------------- *)
+(* BRIDGING OBLIGATIONS (shared with C04): Engine._get_undo_checkpoint / _undo_to_checkpoint, which get_formula_value
+   calls in its try / finally, are regenerated from /repo on every run (harness/rb2v.py) and proved to select exactly
+   the undo actions appended since the checkpoint and to put out_actions back. *)
+Theorem C29_bridge_get_undo_checkpoint : forall (o : oacts action), gen_get_undo_checkpoint o = model_checkpoint o.
+Proof. exact (@bridge_get_undo_checkpoint action). Qed.
+
+Theorem C29_bridge_undo_to_checkpoint : forall (o0 : oacts action) ec es ed eu er,
+  length (oa_direct o0) = length (oa_stored o0) -> (ec, es, eu, er) <> ([], [], [], []) ->
+  gen_undo_to_checkpoint (gen_get_undo_checkpoint o0) (grown o0 ec es ed eu er) = (Some eu, o0).
+Proof. exact (@bridge_undo_to_checkpoint action). Qed.
+
+(* the read-only call left NOTHING in out_actions: the lists are exactly those of before (also when nothing grew) *)
+Theorem C29_code_out_actions_restored : forall (o0 : oacts action) ec es ed eu er,
+  length (oa_direct o0) = length (oa_stored o0) -> length ed = length es ->
+  snd (gen_undo_to_checkpoint (gen_get_undo_checkpoint o0) (grown o0 ec es ed eu er)) = o0.
+Proof.
+  intros o0 ec es ed eu er Hd Hed.
+  destruct (decide ((ec, es, eu, er) = ([], [], [], []))) as [E|Hne].
+  - injection E as -> -> -> ->. destruct ed; [|discriminate]. rewrite bridge_undo_to_checkpoint_nothing. simpl.
+    unfold grown. rewrite !app_nil_r. destruct o0; reflexivity.
+  - rewrite (bridge_undo_to_checkpoint o0 ec es ed eu er Hd Hne). reflexivity.
+Qed.
+
+(* C29_get_formula_value_restores, about the generated revert *)
+Theorem C29_code_get_formula_value_restores : forall ord (s : doc) (u0 : list action) (es : list event) st
+    (o0 : oacts action) ua ec es' ed er,
+  wf s -> Forall no_replace_ev es ->
+  state_after ord (init_state s u0) es = Some st -> ms_pending st = [] ->
+  oa_undo o0 = u0 -> ms_undo st = u0 ++ ua -> length (oa_direct o0) = length (oa_stored o0) ->
+  (ec, es', ua, er) <> ([], [], [], []) ->
+  replay ord (restore_schema st)
+    (rev (default [] (fst (gen_undo_to_checkpoint (gen_get_undo_checkpoint o0) (grown o0 ec es' ed ua er))))) = Some s.
+Proof.
+  intros ord s u0 es st o0 ua ec es' ed er Hw Hnr Hst Hp Hu Hun Hd Hne.
+  rewrite <- (code_rollback ord st o0 u0 ua ec es' ed er Hu Hun Hd Hne). eapply rollback_after_all; eauto.
 Qed.
